@@ -289,6 +289,34 @@ def run_routes(ctx, p):
         ctx.judge('vector_s', ok, dict(api='SE3.interp', kind='vector_s_not_sequence'), lambda: 'SE3.interp(%s) is not the sequence of single interpolations' % sv)
     except Exception as e:
         ctx.bad('vector_s', dict(api='SE3.interp', kind='raised', exc=type(e).__name__), 'SE3.interp(vector s) raised %r' % e)
+    # ... and for the other classes: rotation pose, planar poses, unit quaternion (one- and two-object forms; array and list s)
+    th0, th1 = float(np.arctan2(R0[1, 0], R0[0, 0])), float(np.arctan2(R1[1, 0], R1[0, 0]))
+    cases = {
+        'SO3.interp': (lambda sv_: sm.SO3(R1).interp(sv_), lambda sk: sm.SO3(R1).interp(sk)),
+        'SO3.interp(start)': (lambda sv_: sm.SO3(R1).interp(sv_, start=sm.SO3(R0)), lambda sk: sm.SO3(R1).interp(sk, start=sm.SO3(R0))),
+        'SO2.interp': (lambda sv_: sm.SO2(th1).interp(sv_), lambda sk: sm.SO2(th1).interp(sk)),
+        'SE2.interp': (lambda sv_: sm.SE2(1, -2, th1).interp(sv_), lambda sk: sm.SE2(1, -2, th1).interp(sk)),
+        'UnitQuaternion.interp': (lambda sv_: q1.interp(sv_), lambda sk: q1.interp(sk)),
+        'UnitQuaternion.interp(dest)': (lambda sv_: q0.interp(sv_, dest=q1, shortest=True), lambda sk: q0.interp(sk, dest=q1, shortest=True)),
+    }
+    for name, (fvec, fone) in cases.items():
+        for form in ('array', 'list'):
+            arg = np.array(sv) if form == 'array' else [float(x) for x in sv]
+            try:
+                seq = fvec(arg)
+                ones = [fone(float(sk)) for sk in sv]
+                ok = type(seq) is type(ones[0]) and len(seq) == len(sv)
+                if ok:
+                    for k in range(len(sv)):
+                        a_, b_ = np.asarray(seq.data[k], dtype=np.float64), np.asarray(ones[k].data[0], dtype=np.float64)
+                        dk = float(np.max(np.abs(a_ - b_)))
+                        if name.startswith('UnitQuaternion'):
+                            dk = min(dk, float(np.max(np.abs(a_ + b_))))
+                        ok = ok and dk <= TOL
+                ctx.judge('vector_s', ok, dict(api=name, kind='vector_s_not_sequence', form=form),
+                          lambda: '%s(%s %s) is not the sequence of single interpolations: %s' % (name, form, sv, core.short(getattr(seq, 'data', seq), 300)))
+            except Exception as e:
+                ctx.bad('vector_s', dict(api=name, kind='raised', exc=type(e).__name__, form=form), '%s(vector s as %s) raised %r' % (name, form, e))
     ctx.nontrivial('routes', [float('%.9g' % v) for v in np.r_[R0.reshape(-1), R1.reshape(-1)]], s)
 
 
